@@ -543,9 +543,18 @@ func runDupCycle(r *rng.R, env *runner.Env, res *runner.Result, label string) {
 			if df := diffPairs(appAfterWrite, now); df != "" {
 				res.Violate("refused-but-altered", fmt.Sprintf("LoadOnce failed (%v) but the application DBI changed: %s", lerr, df), wit)
 			}
-			res.Count("cycles_refused", 1)
+			// SendOnce has just accepted exactly this content (the refusals for
+			// non-unique / mis-ordered mappings are made in mainToShadow, which
+			// SendOnce ran on the same data): a merge of a no-news snapshot that
+			// fails now is not a refusal of unmappable data, the mirror cycle
+			// itself broke (e.g. on the deletion markers of removed pairs).
+			res.Violate("mirror-cycle-load-fails-after-accepted-send", fmt.Sprintf("SendOnce accepted the DBI but the following LoadOnce(no news) failed: %v", lerr), wit)
+			res.Count("cycles_load_failed", 1)
 			res.NonTrivial = true
 			return
+		}
+		if len(del) > 0 {
+			res.Count("cycles_with_removed_pairs", 1)
 		}
 		if df := diffPairs(sortPairs(want), now); df != "" {
 			// classify: only pairs with an empty value are missing
